@@ -150,6 +150,15 @@ CHECKS = {
              "repr (missing values, self reference directly and through list/dict, mutual reference, bound method of self, long/nested) are recorded and judged by TLC against "
              "EqOp / ReprAttrs.",
         note=TB, technique="TLA+ equality model with dispatch rule (TLC over all triples); real pairs/triples/copies/repr judged by TLC", ref="3 C10"),
+    "C16": dict(
+        text="DecorationOps.tla computes, from a class description (annotations with collection family, names the body defines, attrs/attrs_typed/attrs_skip selection, "
+             "init/repr/eq switches, inherited managed attributes, singular-form table), the managed attributes (private never), the singular-name rule (fallback <attr>_item, "
+             "RuntimeError when that collides too, renamed element helpers for an inherited collection) and the exact set of generated names; Decoration.tla is the class-"
+             "dictionary state machine (declared -> bootstrapped -> first use of each lazy method) with invariants UserPreserved and ExactHelpers for every choice of a "
+             "generated name pre-defined by the class body, and a 'register overwrites' deviation that violates them. Real classes are rendered from the same "
+             "descriptions with that name defined as function / staticmethod / property / value, lazy and eager; the class __dict__ is snapshotted after decoration, bootstrap "
+             "and first use, and TLC judges identity preservation of everything the body defined and set equality of the added names.",
+        note=TB + "; singular forms are an input table", technique="TLA+ class-dictionary machine (TLC); rendered class variants with __dict__ snapshots judged by TLC", ref="3 C16"),
 }
 
 PENDING = "check not built yet in this round (see DESIGN.md section 3 for the planned TLA+ module)"
